@@ -83,7 +83,7 @@ class Ctx:
             shutil.copytree(SPEC, d)
         return d
 
-    def tlc(self, module, cfg, name=None, workers=None, timeout=3000, extra=None, simulate=None):
+    def tlc(self, module, cfg, name=None, workers=None, timeout=3000, extra=None, simulate=None, heap=None):
         """Run TLC on spec/<module>.tla with the given cfg text. Returns dict with out path + counts.
         Any TLC error (invariant of the MODEL violated, parse error, ...) is Inconclusive: it means the
         specification is wrong, not the code."""
@@ -101,7 +101,7 @@ class Ctx:
         env = dict(os.environ)
         jtmp = os.path.join(self.work, 'jtmp')
         os.makedirs(jtmp, exist_ok=True)   # TLC unpacks its standard modules into java.io.tmpdir and leaves them there
-        env['JAVA_TOOL_OPTIONS'] = (env.get('JAVA_TOOL_OPTIONS', '') + ' -Xss512m -Djava.io.tmpdir=' + jtmp).strip()
+        env['JAVA_TOOL_OPTIONS'] = (env.get('JAVA_TOOL_OPTIONS', '') + ' -Xss512m -Djava.io.tmpdir=' + jtmp + (' -Xmx' + heap if heap else '')).strip()
         t = time.time()
         with open(outp, 'w') as f:
             p = subprocess.run(cmd, cwd=d, env=env, stdout=f, stderr=subprocess.STDOUT)
@@ -125,6 +125,8 @@ class Ctx:
         txt = ''.join(tail)
         if p.returncode == 124:
             raise Inconclusive('TLC timed out on %s after %ds' % (name, timeout))
+        if p.returncode < 0 or p.returncode == 137:
+            raise Inconclusive('TLC was killed by a signal on %s (rc=%d; out of memory or an external kill)' % (name, p.returncode))
         ok = ('Model checking completed. No error has been found.' in txt) or (simulate and p.returncode == 0)
         if not ok or p.returncode != 0:
             keep = os.path.join(EVID, 'tlc-error-%s-%s.txt' % (self.pid, name))
